@@ -228,6 +228,16 @@ pub fn run<T: Fam>(rep: &mut Report, rng: &mut Rng, tb: &Tables) {
         Ok(Err(e)) => {
             if e.classify() == Category::Data {
                 rep.count("rejected:data-error");
+                // the error object itself is coherent: readable, no input location (there is
+                // no input text), no I/O or parse cause, converts to InvalidData
+                use std::error::Error as _;
+                let (disp, dbg) = (e.to_string(), format!("{:?}", e));
+                let coherent = !disp.is_empty() && !dbg.is_empty() && e.location().is_none() && e.source().is_none();
+                let kind = panics::guarded(|| std::io::Error::from(serde_lexpr::from_value::<T>(&v).err().expect("same input, same error")).kind());
+                rep.eval();
+                if !coherent || !matches!(kind, Ok(std::io::ErrorKind::InvalidData)) {
+                    rep.violation("total", format!("C18:data-error-incoherent:{}", name), format!("from_value::<{}>({}): Display {:?}, location {:?}, source {:?}, io kind {:?}", name, dbg_value(&v), disp, e.location().map(|l| (l.line(), l.column())), e.source().map(|s| s.to_string()), kind.map_err(|p| p.short())), replay);
+                }
             } else {
                 rep.violation("total", format!("C18:error-category:{:?}:{}", e.classify(), name), format!("from_value::<{}>({}) failed with category {:?}: {}", name, dbg_value(&v), e.classify(), e), replay);
             }
